@@ -47,6 +47,8 @@ void Kernel::reset(const World &nw, uint64_t nsalt) {
   heap.clear();
   heap_snap.clear();
   for (auto *p : procs) { delete p->image; delete p; }
+  for (auto *c : dyn_specs) delete c;
+  dyn_specs.clear();
   procs.clear();
   by_pid.clear();
   for (auto *p : pipes) delete p;
@@ -76,6 +78,9 @@ void Kernel::reset(const World &nw, uint64_t nsalt) {
   memset(fired_by_kind, 0, sizeof fired_by_kind);
   switches = clock_jumps = 0;
   n_getcwd_erange = n_data_at_death = 0;
+  n_descendants = 0;
+  n_stepped_reads = 0;
+  natural_emfile_ops.clear();
   cur = nullptr;
   last_task = -1;
   caller = nullptr;
